@@ -330,6 +330,10 @@ def gen(rng, tier, i):
                 good = rc.socks5_udp_wrap(rng.choice([oip, "name.sim", "fd00::1"]), oport + 1, rng.randbytes(rng.choice([0, 1, 40])))
                 d = rng.choice([b"", b"\0", b"\0\0\0", b"\0\0\0\x01", b"\0\0\0\x03\xff", b"\0\0\0\x04" + b"\1" * 10, b"\0\0\0\x09abc", mutate(rng, good), good[:rng.randint(0, len(good))], b"\0\0\0\x03\x04\xff\xfe\xfd\xfc\0\x50"])
                 dops += [op("send", to="socks5reply:" + cid, hex=d.hex()), op("sleep", ms=rng.choice([0, 5]))]
+            if rng.random() < 0.2:
+                # a long run of malformed datagrams with nothing valid in between (whatever skips them must not build up state per datagram)
+                junk = rng.choice([b"", b"\0", b"\0\0\0", b"\0\0\0\x09"])
+                dops += [op("send", to="socks5reply:" + cid, hex=junk.hex()) for _ in range(rng.choice([1500, 6000, 12000]))]
             dops.append(op("sleep", ms=500))
             sc.actors.append({"kind": "udp", "id": "u" + cid, "bind": "%s:7400" % a["src"], "start_ms": t, "ops": dops})
         elif kind == "revudp":
